@@ -73,6 +73,7 @@ class HarnessFile:
         self.target = None
         self.cargo_args = None
         self.extra_inject = []   # (target file, literal line) additional lines appended to other files
+        self.also = []           # other properties this harness file also serves
         self.obligations = []
 
 
@@ -115,9 +116,11 @@ def parse_harness_file(path):
         m = ANN.match(line)
         if m:
             k, v = m.group(1), m.group(2)
-            if k in ("property", "crate", "target", "cargo_args", "inject"):
+            if k in ("property", "crate", "target", "cargo_args", "inject", "also"):
                 if k == "property":
                     hf.property = v
+                elif k == "also":
+                    hf.also = [x.strip() for x in v.split(",") if x.strip()]
                 elif k == "crate":
                     hf.crate = v
                 elif k == "target":
@@ -166,6 +169,14 @@ def load_property(prop):
     for hf in hfs:
         if hf.property != prop:
             raise SystemExit(f"{hf.path}: property annotation {hf.property} != directory {prop}")
+    # harness files of other properties that declare `//@ also: <prop>`
+    for p in sorted(glob.glob(os.path.join(HARNESS_DIR, "*", "*.rs"))):
+        if os.path.dirname(p) == os.path.join(HARNESS_DIR, prop):
+            continue
+        with open(p) as f:
+            head = f.read(600)
+        if re.search(r"^//@ also:.*\b" + re.escape(prop) + r"\b", head, re.M):
+            hfs.append(parse_harness_file(p))
     # harness names are used as substring filters: require uniqueness / no-substring
     names = [ob.name for hf in hfs for ob in hf.obligations]
     for a in names:
